@@ -58,9 +58,9 @@ Section Trips.
 
   (* deposit-like first step: totals afterwards and the favourable inequality *)
   Lemma deposit_step_facts s a r f o au s1 sh e1 :
-    Inv s -> wf_call (Deposit a r f o au) = true ->
+    Inv c s -> wf_call (Deposit a r f o au) = true ->
     step c s (Deposit a r f o au) = (s1, Ok (sh, e1)) ->
-    Inv s1 /\ total_assets s1 = total_assets s + a /\ total_supply s1 = total_supply s + sh /\
+    Inv c s1 /\ total_assets s1 = total_assets s + a /\ total_supply s1 = total_supply s + sh /\
     0 <= a /\ 0 <= sh /\ sh * (total_assets s + 1) <= a * (total_supply s + P).
   Proof.
     intros Hi Hwf H. apply step_ok_inv in H. cbn [step_res] in H.
@@ -72,9 +72,9 @@ Section Trips.
   Qed.
 
   Lemma mint_step_facts s x r f o au s1 a e1 :
-    Inv s -> wf_call (MintS x r f o au) = true ->
+    Inv c s -> wf_call (MintS x r f o au) = true ->
     step c s (MintS x r f o au) = (s1, Ok (a, e1)) ->
-    Inv s1 /\ total_assets s1 = total_assets s + a /\ total_supply s1 = total_supply s + x /\
+    Inv c s1 /\ total_assets s1 = total_assets s + a /\ total_supply s1 = total_supply s + x /\
     0 <= a /\ 0 <= x /\ x * (total_assets s + 1) <= a * (total_supply s + P).
   Proof.
     intros Hi Hwf H. apply step_ok_inv in H. cbn [step_res] in H.
@@ -87,7 +87,7 @@ Section Trips.
 
   (* withdraw-like second step: the favourable inequality on the state it runs in *)
   Lemma redeem_step_facts s x r ow o au s2 a e2 :
-    Inv s -> wf_call (Redeem x r ow o au) = true ->
+    Inv c s -> wf_call (Redeem x r ow o au) = true ->
     step c s (Redeem x r ow o au) = (s2, Ok (a, e2)) ->
     0 <= x /\ 0 <= a /\ a * (total_supply s + P) <= x * (total_assets s + 1).
   Proof.
@@ -98,7 +98,7 @@ Section Trips.
   Qed.
 
   Lemma withdraw_step_facts s y r ow o au s2 sh e2 :
-    Inv s -> wf_call (Withdraw y r ow o au) = true ->
+    Inv c s -> wf_call (Withdraw y r ow o au) = true ->
     step c s (Withdraw y r ow o au) = (s2, Ok (sh, e2)) ->
     0 <= y /\ 0 <= sh /\ y * (total_supply s + P) <= sh * (total_assets s + 1).
   Proof.
@@ -110,7 +110,7 @@ Section Trips.
 
   (* the four immediate round trips, between arbitrary parties *)
   Theorem trip_deposit_redeem s a r f o au s1 sh e1 x r' ow o' au' s2 a' e2 :
-    Inv s -> wf_call (Deposit a r f o au) = true -> wf_call (Redeem x r' ow o' au') = true ->
+    Inv c s -> wf_call (Deposit a r f o au) = true -> wf_call (Redeem x r' ow o' au') = true ->
     step c s (Deposit a r f o au) = (s1, Ok (sh, e1)) -> x <= sh ->
     step c s1 (Redeem x r' ow o' au') = (s2, Ok (a', e2)) -> a' <= a.
   Proof.
@@ -122,7 +122,7 @@ Section Trips.
   Qed.
 
   Theorem trip_mint_redeem s x r f o au s1 a e1 y r' ow o' au' s2 a' e2 :
-    Inv s -> wf_call (MintS x r f o au) = true -> wf_call (Redeem y r' ow o' au') = true ->
+    Inv c s -> wf_call (MintS x r f o au) = true -> wf_call (Redeem y r' ow o' au') = true ->
     step c s (MintS x r f o au) = (s1, Ok (a, e1)) -> y <= x ->
     step c s1 (Redeem y r' ow o' au') = (s2, Ok (a', e2)) -> a' <= a.
   Proof.
@@ -134,7 +134,7 @@ Section Trips.
   Qed.
 
   Theorem trip_deposit_withdraw s a r f o au s1 sh e1 y r' ow o' au' s2 sh' e2 :
-    Inv s -> wf_call (Deposit a r f o au) = true -> wf_call (Withdraw y r' ow o' au') = true ->
+    Inv c s -> wf_call (Deposit a r f o au) = true -> wf_call (Withdraw y r' ow o' au') = true ->
     step c s (Deposit a r f o au) = (s1, Ok (sh, e1)) -> a <= y ->
     step c s1 (Withdraw y r' ow o' au') = (s2, Ok (sh', e2)) -> sh <= sh'.
   Proof.
@@ -146,7 +146,7 @@ Section Trips.
   Qed.
 
   Theorem trip_mint_withdraw s x r f o au s1 a e1 y r' ow o' au' s2 sh' e2 :
-    Inv s -> wf_call (MintS x r f o au) = true -> wf_call (Withdraw y r' ow o' au') = true ->
+    Inv c s -> wf_call (MintS x r f o au) = true -> wf_call (Withdraw y r' ow o' au') = true ->
     step c s (MintS x r f o au) = (s1, Ok (a, e1)) -> a <= y ->
     step c s1 (Withdraw y r' ow o' au') = (s2, Ok (sh', e2)) -> x <= sh'.
   Proof.
@@ -159,7 +159,7 @@ Section Trips.
 
   (* with an arbitrary history in between: what comes back is bounded by the growth of the rate *)
   Theorem deposit_history_redeem s a r f o au s1 sh e1 cs x r' ow o' au' s3 a' e2 :
-    Inv s -> wf_call (Deposit a r f o au) = true -> forallb wf_call cs = true ->
+    Inv c s -> wf_call (Deposit a r f o au) = true -> forallb wf_call cs = true ->
     wf_call (Redeem x r' ow o' au') = true ->
     step c s (Deposit a r f o au) = (s1, Ok (sh, e1)) -> x <= sh ->
     step c (run c s1 cs) (Redeem x r' ow o' au') = (s3, Ok (a', e2)) ->
@@ -176,7 +176,7 @@ Section Trips.
 End Trips.
 
 (* ---------- withdrawing within one's means ---------- *)
-Theorem withdraw_within_means c s ow a m : wf_cfg c -> Inv s ->
+Theorem withdraw_within_means c s ow a m : wf_cfg c -> Inv c s ->
   max_withdraw c s ow = Ok m -> 0 <= a <= m ->
   exists sh, preview_withdraw c s a = Ok sh /\ 0 <= sh <= bal (share s) ow /\ a <= total_assets s.
 Proof.
@@ -197,7 +197,7 @@ Proof.
     assert (Hb0 : 0 < bal (share s) ow).
     { destruct (Z.eq_dec (bal (share s) ow) 0) as [E|E]; [|lia].
       rewrite E in Hm. unfold to_assets in Hm. cbn in Hm. inversion Hm. lia. }
-    rewrite to_assets_spec in Hm by exact Hbr.
+    rewrite (to_assets_spec c s _ _ (Inv_stored c s Hi)) in Hm by exact Hbr.
     destruct (spec_conv_ok _ _ _ _ _ _ Hm) as (_ & _ & Hfit). destruct (Hfit Hb0) as (_ & _ & _ & Hnum & Hden & HPr).
     set (q := exact Ceil (a * (total_supply s + P_of c)) (total_assets s + 1)).
     pose proof (ceil_pos (a * (total_supply s + P_of c)) (total_assets s + 1) HA1) as Hq. fold q in Hq. cbn zeta in Hq.
@@ -207,7 +207,7 @@ Proof.
       assert ((q - 1) * (total_assets s + 1) < bal (share s) ow * (total_assets s + 1)) by lia.
       assert (q - 1 < bal (share s) ow) by nia. lia. }
     exists q. split; [|split; [exact Hqb|lia]].
-    unfold preview_withdraw. rewrite to_shares_spec by (rewrite MIN128_val; destruct Hbr; lia).
+    unfold preview_withdraw. rewrite (to_shares_spec c s _ _ (Inv_stored c s Hi)) by (rewrite MIN128_val; destruct Hbr; lia).
     unfold spec_conv. assert (E1 : (a <? 0) = false) by lia. assert (E2 : (a =? 0) = false) by lia.
     rewrite E1, E2.
     assert (E3 : in_i128 (P_of c) && in_i128 (total_supply s + P_of c) && in_i128 (total_assets s + 1)
@@ -234,16 +234,16 @@ Proof.
 Qed.
 
 Lemma withdraw_internal_succeeds c s r ow a sh :
-  Inv s -> 0 <= sh <= bal (share s) ow -> 0 <= a <= total_assets s ->
+  Inv c s -> 0 <= sh <= bal (share s) ow -> 0 <= a <= total_assets s ->
   exists s', withdraw_internal c s r ow a sh ow = Ok s'.
 Proof.
-  intros (Ha & Hs & _) Hsh Hx. unfold withdraw_internal. rewrite N.eqb_refl. cbn [negb bind].
-  rewrite (update_burn_succeeds _ _ _ Hs Hsh). cbn [bind].
+  intros (Ha & Hs & _ & Hst) Hsh Hx. unfold withdraw_internal. rewrite N.eqb_refl. cbn [negb bind].
+  rewrite (update_burn_succeeds _ _ _ Hs Hsh). cbn [bind]. rewrite (stored_client c s Hst). cbn [bind].
   unfold tok_transfer. cbn [guard bind]. rewrite (update_xfer_succeeds _ _ _ _ Ha Hx). cbn [bind].
   eexists. reflexivity.
 Qed.
 
-Theorem withdraw_succeeds c s au a r ow m : wf_cfg c -> Inv s -> auth_root au ow = true ->
+Theorem withdraw_succeeds c s au a r ow m : wf_cfg c -> Inv c s -> auth_root au ow = true ->
   max_withdraw c s ow = Ok m -> 0 <= a <= m ->
   exists s' sh evs, step_res c s (Withdraw a r ow ow au) = Ok (s', (sh, evs)).
 Proof.
@@ -255,7 +255,7 @@ Proof.
   rewrite Hp. cbn [bind]. rewrite Hs'. cbn [bind]. eauto.
 Qed.
 
-Theorem redeem_succeeds c s au x r ow a : wf_cfg c -> Inv s -> auth_root au ow = true ->
+Theorem redeem_succeeds c s au x r ow a : wf_cfg c -> Inv c s -> auth_root au ow = true ->
   0 <= x <= bal (share s) ow -> preview_redeem c s x = Ok a ->
   exists s' evs, step_res c s (Redeem x r ow ow au) = Ok (s', (a, evs)).
 Proof.
